@@ -690,6 +690,8 @@ def check_C11(A, R, tier):
                 if f[0] == "str" and any(p[0] == "histout" for p in f[1]):
                     okg = True
     R.ob("R11.2", "get_job_output returns the job's history_output", okg, detail=str(rv)[:200])
+    # R11.4: records of skipped jobs and their dependencies are not swept away by a pattern
+    rule_no_bulk_removal(A, R, "R11.4")
     # R11.3: a validly skipped job (never started, finished without failure) keeps its own records, with or without an
     # attached output (a leaf Ephemeral pruned at startup has none)
     rule_never_started_kept(A, R, "R11.3", which="skipped")
@@ -758,6 +760,7 @@ def check_C12(A, R, tier):
     rule_no_textual_record_compare(A, R, "R12.c")
     from rules_compare import rule_comparison_pair
     rule_comparison_pair(A, R, "R12.c")      # ... and the comparison is asked about the pair whose records it is given (= R15.4)
+    rule_no_bulk_removal(A, R, "R12.k")
     # R12.p: jobs nobody can need are pruned completely at startup (otherwise they are invalidated on every start)
     rule_prune_fixpoint(A, R, "R12.p")
     R.explanation = ("Writer/reader agreement (necessary for the fixpoint): per key class the template new_history writes and the templates "
@@ -813,6 +816,16 @@ def cmp_rules(A, R):
 
 
 # =============================================================================================
+def rule_no_bulk_removal(A, R, rule):
+    """no selective bulk removal (retain) on the returned map after the initial filter: it would drop records by a textual pattern
+    instead of by the job / dependency they belong to"""
+    run = nh_run(A, "joined", "none")
+    bulk = [v for v in run.by_kind("retain") if v.get("form") == "map_retain" and "history_filtered" in v.get("tags", ())]
+    R.ob(rule, "new_history | the returned map is only changed record by record after the initial filter", not bulk,
+         detail="a second retain on the returned history removes records that are not identified by a present job or dependency "
+                "(e.g. the per-dependency records of consumers that were validly skipped)", site=A.site(bulk[0]) if bulk else "")
+
+
 @prop("C18")
 def check_C18(A, R, tier):
     C = A.classes()
@@ -853,6 +866,7 @@ def check_C18(A, R, tier):
                 ok = all(sym_tag(s_) in ("jobs", "ea", "eb") for s_ in syms)
         R.ob("R18.2", "new_history | %s %s record | keyed by a job / dependency of the current graph" % (v["op"], ck[0]), ok,
              detail="key %s" % (ck,), site=A.site(v))
+    rule_no_bulk_removal(A, R, "R18.2")
     # R18.3 / R18.5: the filter closure ------------------------------------------------------------
     fcl = hf["closure"] if hf else None
     R.ob("R18.3", "new_history | the history filter closure is identified", fcl is not None)
